@@ -555,6 +555,55 @@ func argobjRequests(c *h.Ctx, ds []float64) {
 	}
 }
 
+// pintobjRequests: parseInt with an object as radix (logging / throwing valueOf, toString fallback) and a
+// primitive, logging or throwing string argument, for empty, white-space-only, sign-only, prefix-only and
+// ordinary inputs.
+func pintobjRequests(c *h.Ctx) {
+	r := c.Rng
+	inputs := []string{"", " ", "\t\n", "\ufeff", "-", "+", " - ", "0x", "0X", "-0x", "0", "12", "-12", "0x1F", " 7 ", "z", "abc", "1e3", "10", "-0", "9007199254740993", "0x8000000000000401", "\u0085", "\u00851"}
+	radVals := []float64{0, 10, 16, 2, 36, 37, 1, -1, 8, 16.9, 4294967312, math.NaN(), math.Inf(1), math.Copysign(0, -1)}
+	strTok := func(mode byte, s string) string { return string(mode) + ":" + strings.TrimPrefix(h.BytesTok(s), "s:") }
+	scripts := [][2]string{}
+	for _, rv := range radVals {
+		scripts = append(scripts, [2]string{h.F64Hex(rv), h.F64Hex(2)}, [2]string{"o", h.F64Hex(rv)})
+	}
+	scripts = append(scripts, [2]string{"T", h.F64Hex(10)}, [2]string{"o", "T"}, [2]string{"o", "o"}, [2]string{h.F64Hex(10) + "," + h.F64Hex(16), h.F64Hex(2)})
+	for _, in := range inputs {
+		for _, sc := range scripts {
+			c.Add("pintobj "+strTok('p', in)+" "+sc[0]+" "+sc[1], "pintobj")
+			c.Add("pintobj "+strTok('o', in)+" "+sc[0]+" "+sc[1], "pintobj")
+		}
+	}
+	for _, sc := range scripts {
+		c.Add("pintobj T "+sc[0]+" "+sc[1], "pintobj")
+	}
+	for i := 0; i < c.N(3000, 150000); i++ {
+		a := radixArgs[r.Intn(len(radixArgs))]
+		radix := 0
+		if a != "u" {
+			if f := h.HexF64(a); f >= 2 && f <= 36 {
+				radix = int(f)
+			}
+		} else {
+			a = h.F64Hex(0)
+		}
+		in := genParseIntString(r, radix)
+		if r.Intn(4) == 0 {
+			in = inputs[r.Intn(len(inputs))]
+		}
+		v, sv := a, h.F64Hex(10)
+		switch r.Intn(8) {
+		case 0:
+			v, sv = "o", a
+		case 1:
+			v = "T"
+		case 2:
+			v, sv = "o", "o"
+		}
+		c.Add("pintobj "+strTok("po"[r.Intn(2)], in)+" "+v+" "+sv, "pintobj:random")
+	}
+}
+
 // numeric literal source texts (ES5 7.8.3 + B.1.1) and near misses
 func genLiteral(r *h.Rng, doubles []float64) string {
 	switch r.Intn(10) {
@@ -725,6 +774,7 @@ func genStream(c *h.Ctx) {
 
 	// --- object arguments: how often / when the digit count or radix is converted
 	argobjRequests(c, ds)
+	pintobjRequests(c)
 	// --- text -> number
 	wsEdgeRequests(c)
 	for _, m := range []string{"toString", "toLocaleString", "valueOf", "toFixed", "toExponential", "toPrecision"} {
